@@ -334,3 +334,31 @@ func AnyWrap(r *prng.R) string {
 	b.WriteString("print nums strs row n m\n") // every variable must be used
 	return b.String()
 }
+
+// MapLife builds a program in which the SAME map or array literal is evaluated
+// several times (in a procedure, a loop body, a handler) and the resulting
+// values then live separate lives: keys deleted from one, inserted into
+// another, elements overwritten, earlier values printed again afterwards.
+func MapLife(r *prng.R) (string, []core.Event) {
+	keys := []string{"a", "b", "c", "d"}
+	lit := fmt.Sprintf("{a:%d b:%d c:%d}", r.Intn(9), r.Intn(9), r.Intn(9))
+	if r.Chance(0.3) {
+		lit = "{a:[1 2] b:[3] c:[]}"
+	}
+	delKey := keys[r.Intn(3)]
+	newKey := []string{"z", "k", "a", "d"}[r.Intn(4)]
+	var b strings.Builder
+	switch r.Intn(4) {
+	case 0: // procedure
+		fmt.Fprintf(&b, "func mk:{}any\n    return %s\nend\nm1 := mk\nm2 := mk\ndel m1 %q\nm1.%s = 7\nm3 := mk\nprint m1 m2 m3 (mk)\ndel m3 %q\nm3[%q] = 1\nprint m1 m2 m3 (len m1) (has m2 %q)\nfor k := range m2\n    print k m2[k]\nend\n", lit, delKey, newKey, keys[r.Intn(3)], newKey, delKey)
+	case 1: // loop body
+		fmt.Fprintf(&b, "keep:[]any\nfor i := range 4\n    m := %s\n    if i %% 2 == 0\n        del m %q\n        m.%s = i\n    end\n    keep = keep + [m]\n    print i m keep\nend\nprint keep\n", lit, delKey, newKey)
+	case 2: // handler
+		fmt.Fprintf(&b, "last:{}any\non key k:string\n    m := %s\n    print \"before\" last m\n    del m %q\n    m[k] = (len k)\n    last = m\n    print \"after\" last m\nend\n", lit, delKey)
+		evs := []core.Event{{Name: "key", Str: []string{"x"}}, {Name: "key", Str: []string{newKey}}, {Name: "key", Str: []string{"a"}}, {Name: "key", Str: []string{""}}}
+		return b.String(), evs
+	default: // arrays: the same literal, elements overwritten and values concatenated
+		fmt.Fprintf(&b, "func row:[]num\n    return [1 2 3]\nend\nr1 := row\nr2 := row\nr1[0] = 9\nr2 = r2 + [4]\nr3 := row\nprint r1 r2 r3 (row)\nfor i := range 3\n    a := [i i i]\n    a[i] = 100\n    b := a[1:]\n    b[0] = -1\n    print a b\nend\n")
+	}
+	return b.String(), nil
+}
